@@ -1,7 +1,48 @@
 import Glom.Driver.InterpRun
+import Glom.Spec.C03
 namespace Glom.C03.Driver
 open Lean Glom.Interp Glom.Interp.Codec Glom.Interp.Run
 
+def evOfJson (j : Json) : Except String Ev := do
+  match j.getObjValAs? String "call" with
+  | .ok n => do
+    let as ← (← arr j "args").mapM vOfJson
+    return .call n as
+  | .error _ => throw s!"bad event {j.compress}"
+
+structure LeafRow where
+  pos : List Nat
+  target : V
+  out : Outcome
+
+def outcomeOfJson (res : Json) (log : List Json) : Except String Outcome := do
+  let r : Except Err V ← (match res.getObjVal? "ok" with
+    | .ok v => do return .ok (← vOfJson v)
+    | .error _ => do return .error ⟨← res.getObjValAs? String "err"⟩)
+  return (r, ← log.mapM evOfJson)
+
+def leafRowOfJson (j : Json) : Except String LeafRow := do
+  let pos ← (← arr j "pos").mapM (fun x => x.getNat?)
+  let target ← vOfJson (← j.getObjVal? "target")
+  let out ← outcomeOfJson (← j.getObjVal? "res") (← arr j "log")
+  return { pos, target, out }
+
+def vText (v : V) : String := (vToJson (canonV v)).compress
+
+def outcomeEq (a b : Outcome) : Bool :=
+  (match a.1, b.1 with
+   | .ok x, .ok y => vText x == vText y
+   | .error x, .error y => x.cls == y.cls
+   | _, _ => false) &&
+  logText (a.2.map evToJson) == logText (b.2.map evToJson)
+
+def tableLeaf (rows : List LeafRow) : LeafFn := fun pos _ t =>
+  (rows.find? (fun r => r.pos == pos && vText r.target == vText t)).map (·.out)
+
+/-- C03: `holds` = the independent composition checker (`checkC03`: the observed outcome of the
+    whole spec equals the one recomputed, by the rules of the property text, from the separately
+    observed outcomes of its leaves) ∧ the outcome is the code-shaped model's (for the constructs
+    whose documented behaviour the model is: Call, Invoke, … — the leaves of the composition) -/
 def run (j : Json) : Except String Json := do
   let c ← decode j
   let (mres, mlog) := runModel c
@@ -10,12 +51,24 @@ def run (j : Json) : Except String Json := do
   let mlogJ := mlog.map evToJson
   let logAgree := logText mlogJ == logText c.implLog
   let agree := resEq mres c.implRes && logAgree
-  -- the composition law re-evaluated on the implementation itself (harness: compose())
-  let composeOK := (j.getObjValAs? Bool "impl_compose_ok").toOption.getD true
-  return Json.mkObj [("agree", agree), ("holds", agree && composeOK),
-    ("why", if !composeOK then "the spec's output differs from composing the outputs of its sub-specs"
+  let fuel := fuelFor c.spec
+  let inDomain := scopeFreeF fuel c.spec && c.spec.isAutoContainer && c.scope.isEmpty
+  let whole : Outcome ← outcomeOfJson (← j.getObjVal? "impl") c.implLog
+  let (composeOK, tag) ← (match j.getObjVal? "impl_leaves" with
+    | .ok (.arr a) => do
+      if !inDomain then throw "impl_leaves given for a spec that is not a composition of observable sub-specs"
+      let rows ← a.toList.mapM leafRowOfJson
+      pure (checkC03 prims outcomeEq (tableLeaf rows) fuel c.spec c.target whole, "composed")
+    | .ok .null => do
+      let why ← j.getObjValAs? String "impl_leaves_why"
+      if inDomain && !(why.startsWith "unencodable") then
+        throw s!"no leaf observations for a composable spec: {why}"
+      pure (true, if inDomain then "unobservable" else "leaf")
+    | _ => throw "missing or malformed impl_leaves" : Except String (Bool × String))
+  return Json.mkObj [("agree", agree), ("holds", composeOK && agree),
+    ("why", if !composeOK then "the spec's outcome (value / exception / call log) differs from the one composed from the separately observed outcomes of its sub-specs"
             else if !agree then "result or call order differs from the compositional model" else ""),
     ("model", Json.mkObj [("res", resToJson mres), ("log", Json.arr mlogJ.toArray)]),
-    ("branch", match mres with | .ok _ => "ok" | .error e => s!"err-{e}")]
+    ("branch", Json.str (s!"{tag}-" ++ (match mres with | .ok _ => "ok" | .error e => s!"err-{e}")))]
 
 end Glom.C03.Driver
